@@ -170,8 +170,22 @@ def check(tier: str) -> Result:
             if g and g[0] is old:
                 found = (c, g)
         ok = found is not None
-        res.add("C11.R6", site, fn, f"LAST when the counter reaches the structural horizon ({bound_desc})", ok,
-                f"disjunct {txt(found[0])} normal form step_count >= {txt(found[1][1], 3)}{found[1][2]:+d}" if ok else "no counter disjunct")
+        why = "no counter disjunct"
+        if ok:
+            Y, k = found[1][1], found[1][2]
+            why = f"disjunct {txt(found[0])} normal form step_count >= {txt(Y, 3)}{k:+d}"
+            # reference forms (documented horizons; today's tree): FlatPack new_count >= state.num_blocks;
+            # MultiCVRP new_count > 2 * num_customers
+            Ys = strip_cast(Y) if Y is not None else None
+            if name == "FlatPack":
+                ok = Ys is vfg.mk_attr(ea.state, "num_blocks") and k == -1
+            else:
+                two_n = Ys is not None and Ys.kind == "bin" and Ys.args[0] == "*" and \
+                    {strip_cast(Ys.args[1]), strip_cast(Ys.args[2])} == {vfg.mk_attr(ea.self_t, "_num_customers"), const(2)}
+                ok = bool(two_n) and k == 0
+            if not ok:
+                why += f" -- not the documented horizon ({bound_desc})"
+        res.add("C11.R6", site, fn, f"LAST when the counter reaches the structural horizon ({bound_desc})", ok, why)
     res.analysed = {"environments_with_time_limit": names, "count": len(names)}
     res.assumptions = ["Python `or` / conditional-expression semantics; integer step counters",
                        "time_limit is a positive int (0/None select the documented default)"]
